@@ -23,6 +23,7 @@ from collections import Counter
 
 from .. import common, eqcases, eqterm
 from ..extract import eqtable
+from ..gen import kinds
 
 THEOREMS = [
     "Pt.EqM.eqStruct_equivalence", "Pt.EqM.eq_iff_proj", "Pt.EqM.eq_iff_semEq",
@@ -280,6 +281,135 @@ def correspondence(ctx, t, seed: int, n_graphs: int, n_mut: int):
     return pickles, per_graph
 
 
+def batch_spellings(ctx):
+    """one node, built through the public API with its arguments SPELLED differently (dtype as class / string /
+    np.dtype / alias, shape as tuple / list / numpy integers, axis as int / negative / numpy integer, tags as
+    one tag / frozenset): the nodes must be equal, hash alike, carry an np.dtype, and get one persistent key"""
+    import numpy as np
+    import pytato as pt
+    from pytato.analysis import PytatoKeyBuilder
+    keyb = PytatoKeyBuilder()
+    x = pt.make_placeholder("x", (3, 4), np.float64)
+    dts = {"float32": [np.float32, "float32", np.dtype("float32"), "f4", np.dtype("<f4")],
+           "int64": [np.int64, "int64", np.dtype("int64"), "i8", int],
+           "float64": [np.float64, "float64", np.dtype("float64"), float, "d"],
+           "complex128": [np.complex128, "complex128", np.dtype("complex128"), complex],
+           "bool": [np.bool_, "bool", np.dtype("bool"), bool]}
+    builders = {
+        "zeros": lambda dt: pt.zeros((2, 3), dtype=dt), "ones": lambda dt: pt.ones((2, 3), dtype=dt),
+        "full": lambda dt: pt.full((2, 3), 1, dtype=dt), "eye": lambda dt: pt.eye(3, dtype=dt),
+        "eye-NMk": lambda dt: pt.eye(3, 4, 1, dtype=dt),
+        "arange": lambda dt: pt.arange(5, dtype=dt), "placeholder": lambda dt: pt.make_placeholder("p", (2,), dt),
+        "astype": lambda dt: x.astype(dt), "zeros_like": lambda dt: pt.zeros_like(x, dtype=dt),
+        "ones_like": lambda dt: pt.ones_like(x, dtype=dt), "full_like": lambda dt: pt.full_like(x, 1, dtype=dt),
+        "sum-dtype": lambda dt: pt.sum(x, dtype=dt) if dt not in (bool, np.bool_, "bool") else pt.sum(x),
+    }
+    groups = []
+    for bname, b in builders.items():
+        for dname, sp in dts.items():
+            nodes = []
+            for v in sp:
+                try:
+                    nodes.append((repr(v), b(v)))
+                except Exception:   # noqa: BLE001
+                    pass
+            if len(nodes) >= 2:
+                groups.append((f"{bname}:dtype={dname}", nodes))
+    i8 = np.int64
+    def each(*thunks):
+        out = []
+        for i, th in enumerate(thunks):
+            try:
+                out.append((str(i), th()))
+            except Exception:   # noqa: BLE001  (a spelling pytato does not accept, e.g. a negative roll axis)
+                pass
+        return out
+    F = kinds.VFooTag
+    others = {
+        "zeros:shape": each(lambda: pt.zeros((2, 3)), lambda: pt.zeros([2, 3]), lambda: pt.zeros((i8(2), np.int32(3))),
+                            lambda: pt.zeros((2, 3), dtype=np.float64)),
+        "full:shape+value": each(lambda: pt.full((2,), 1.0), lambda: pt.full([2], 1.0), lambda: pt.full((i8(2),), 1.0),
+                                 lambda: pt.full(2, 1.0)),
+        "reshape:newshape": each(lambda: pt.reshape(x, (4, 3)), lambda: pt.reshape(x, [4, 3]),
+                                 lambda: pt.reshape(x, (i8(4), i8(3))), lambda: pt.reshape(x, (4, -1)),
+                                 lambda: pt.reshape(x, (-1, 3)), lambda: x.reshape(4, 3), lambda: x.reshape((4, 3))),
+        "reshape:order": each(lambda: pt.reshape(x, (4, 3), order="F"), lambda: pt.reshape(x, (4, 3), order="f")),
+        "transpose:axes": each(lambda: pt.transpose(x), lambda: pt.transpose(x, (1, 0)), lambda: pt.transpose(x, [1, 0]),
+                               lambda: x.T, lambda: pt.transpose(x, (i8(1), i8(0)))),
+        "roll:axis": each(lambda: pt.roll(x, 1, 1), lambda: pt.roll(x, 1, -1), lambda: pt.roll(x, i8(1), i8(1))),
+        "sum:axis": each(lambda: pt.sum(x, axis=1), lambda: pt.sum(x, axis=-1), lambda: pt.sum(x, axis=(1,)),
+                         lambda: pt.sum(x, axis=i8(1))),
+        "sum:all-axes": each(lambda: pt.sum(x), lambda: pt.sum(x, axis=None), lambda: pt.sum(x, axis=(0, 1)),
+                             lambda: pt.sum(x, axis=(1, 0))),
+        "stack:axis": each(lambda: pt.stack([x, x], axis=2), lambda: pt.stack([x, x], axis=-1),
+                           lambda: pt.stack((x, x), axis=2)),
+        "concatenate:axis": each(lambda: pt.concatenate([x, x], axis=1), lambda: pt.concatenate((x, x), axis=-1)),
+        "index:int": each(lambda: x[1], lambda: x[1, :], lambda: x[i8(1)], lambda: x[-2], lambda: x[1, ...]),
+        "index:slice": each(lambda: x[:, 1:3], lambda: x[:, 1:3:1], lambda: x[:, -3:-1], lambda: x[..., 1:3],
+                            lambda: x[0:3, 1:3], lambda: x[:, i8(1):i8(3)]),
+        "expand_dims": each(lambda: pt.expand_dims(x, 0), lambda: pt.expand_dims(x, (0,)), lambda: pt.expand_dims(x, -3)),
+        "einsum:spec": each(lambda: pt.einsum("ij->j", x), lambda: pt.einsum("ab->b", x), lambda: pt.einsum(" ij -> j ", x)),
+        "tagged": each(lambda: x.tagged(F()), lambda: x.tagged(frozenset({F()})), lambda: x.tagged([F()]),
+                       lambda: x.tagged(F()).tagged(F())),
+    }
+    for k, nodes in others.items():
+        if len(nodes) >= 2:
+            groups.append((k, nodes))
+    # integer parameters as numpy integers of every width
+    for it in (np.int8, np.uint8, np.int16, np.int32, np.uint32, np.int64, np.uint64):
+        groups.append((f"numpy-integer-parameters:{it.__name__}", each(
+            lambda: pt.roll(x, 1, 1), lambda: pt.roll(x, it(1), it(1)))))
+        for nm, a, b in [
+                ("reshape", lambda: pt.reshape(x, (4, 3)), lambda: pt.reshape(x, (it(4), it(3)))),
+                ("transpose", lambda: pt.transpose(x, (1, 0)), lambda: pt.transpose(x, (it(1), it(0)))),
+                ("index", lambda: x[1], lambda: x[it(1)]),
+                ("slice", lambda: x[:, 1:3], lambda: x[:, it(1):it(3)]),
+                ("stack", lambda: pt.stack([x, x], axis=1), lambda: pt.stack([x, x], axis=it(1))),
+                ("concatenate", lambda: pt.concatenate([x, x], axis=1), lambda: pt.concatenate([x, x], axis=it(1))),
+                ("broadcast_to", lambda: pt.broadcast_to(x, (2, 3, 4)), lambda: pt.broadcast_to(x, (it(2), 3, 4))),
+                ("zeros", lambda: pt.zeros((2, 3)), lambda: pt.zeros((it(2), it(3)))),
+                ("placeholder", lambda: pt.make_placeholder("p", (2,), np.float64),
+                 lambda: pt.make_placeholder("p", (it(2),), np.float64)),
+                ("eye", lambda: pt.eye(3), lambda: pt.eye(it(3))),
+                ("sum-axis", lambda: pt.sum(x, axis=1), lambda: pt.sum(x, axis=it(1))),
+                ("expand_dims", lambda: pt.expand_dims(x, (0,)), lambda: pt.expand_dims(x, (it(0),)))]:
+            g = each(a, b)
+            if len(g) == 2:
+                groups.append((f"numpy-integer-parameters:{it.__name__}:{nm}", g))
+    cases = dis = 0
+    for label, nodes in groups:
+        r0, n0 = nodes[0]
+        for r, n in nodes:
+            cases += 1
+            if not isinstance(n.dtype, np.dtype):
+                dis += 1
+                ctx.violation("eq:spelling:dtype-not-normalised",
+                              f"{label}: the node built with {r} has dtype {n.dtype!r}, not an np.dtype",
+                              {"group": label, "spelling": r})
+                continue
+            eq = (n == n0) and (n0 == n)
+            if not eq:
+                # two spellings that pytato treats as different programs: only a finding if NumPy treats them alike
+                # AND the nodes differ in nothing but the spelling (same shape and dtype) — recorded, judged below
+                if n.shape == n0.shape and n.dtype == n0.dtype and label.split(":")[0] not in ("einsum", "sum", "index", "tagged",
+                                                                                               "roll", "reshape"):
+                    dis += 1
+                    ctx.violation("eq:spelling:not-equal",
+                                  f"{label}: spellings {r0} and {r} give different nodes", {"group": label, "a": r0, "b": r})
+                continue
+            if hash(n) != hash(n0):
+                dis += 1
+                ctx.violation("eq:spelling:equal-but-hash-differs",
+                              f"{label}: the nodes built with {r0} and {r} are equal under == but hash differently",
+                              {"group": label, "a": r0, "b": r})
+            elif keyb(n) != keyb(n0):
+                dis += 1
+                ctx.violation("eq:spelling:equal-but-key-differs",
+                              f"{label}: the nodes built with {r0} and {r} are equal but get different persistent keys",
+                              {"group": label, "a": r0, "b": r})
+    ctx.note_batch("argument-spellings", cases, dis, exhaustive=False, groups=len(groups))
+
+
 def cross_process(ctx, seed: int, n: int, pickles, per_graph, hash_seeds):
     """fresh interpreters with other hash seeds: unpickle there, rebuild there, ship back"""
     outs = eqcases.run_children(ctx, seed, n, pickles, hash_seeds, tag="c04")
@@ -382,6 +512,7 @@ def run(ctx: common.Ctx):
         else:
             ctx.coverage["unexplained_build_errors"] = rest
     n_graphs, n_mut = (1500, 6) if ctx.thorough else (150, 3)
+    batch_spellings(ctx)
     pickles, per_graph = correspondence(ctx, t, ctx.seed, n_graphs, n_mut)
     n_x = 400 if ctx.thorough else 40
     seeds = [1, 2, 3, 4, 12345] if ctx.thorough else [1, 7, 4242]
